@@ -18,6 +18,7 @@ ROOT = os.path.dirname(os.path.dirname(os.path.abspath(__file__)))
 COQ = os.path.join(ROOT, "coq")
 HARNESS = os.environ.get("RV_HARNESS") or os.path.join(ROOT, "harness")  # RV_HARNESS: scratch copy for mutation experiments
 WORK = os.path.join(ROOT, "work")
+OUT = os.environ.get("RV_OUT") or ROOT   # RV_OUT: where evidence/ and replays/ go (mutation experiments use a scratch dir)
 REPO = "/repo"
 NCPU = os.cpu_count() or 4
 
@@ -383,15 +384,15 @@ class Check:
         self.hist = {}
         self.notes = []
         self.known_findings = json.load(open(os.path.join(ROOT, "known_findings.json")))
-        os.makedirs(os.path.join(ROOT, "replays", prop), exist_ok=True)
-        os.makedirs(os.path.join(ROOT, "evidence"), exist_ok=True)
+        os.makedirs(os.path.join(OUT, "replays", prop), exist_ok=True)
+        os.makedirs(os.path.join(OUT, "evidence"), exist_ok=True)
 
     def count(self, key, n=1):
         self.hist[key] = self.hist.get(key, 0) + n
 
     def replay_path(self, payload, ext="txt"):
         h = hashlib.sha1(payload.encode()).hexdigest()[:12]
-        p = os.path.join(ROOT, "replays", self.prop, f"{h}.{ext}")
+        p = os.path.join(OUT, "replays", self.prop, f"{h}.{ext}")
         with open(p, "w") as f:
             f.write(payload)
         return p
@@ -474,7 +475,7 @@ class Check:
             "known_findings_reported": [f"{a}: {b}" for a, b in self.known],
             "violation_details": [w for w, _, _ in (real + soft)][:10],
         }
-        with open(os.path.join(ROOT, "evidence", f"{self.prop}.json"), "w") as f:
+        with open(os.path.join(OUT, "evidence", f"{self.prop}.json"), "w") as f:
             json.dump(ev, f, indent=1, default=str)
         for l in lines:
             print(l)
